@@ -1,5 +1,25 @@
 /- Central dispatch on the op family (text before the first '.'). -/
 import Reamber.Drv.Timing
+import Reamber.Drv.C01
+import Reamber.Drv.C02
+import Reamber.Drv.C03
+import Reamber.Drv.C04
+import Reamber.Drv.C05
+import Reamber.Drv.C06
+import Reamber.Drv.C07
+import Reamber.Drv.C08
+import Reamber.Drv.C09
+import Reamber.Drv.C10
+import Reamber.Drv.C11
+import Reamber.Drv.C12
+import Reamber.Drv.C13
+import Reamber.Drv.C14
+import Reamber.Drv.C15
+import Reamber.Drv.C16
+import Reamber.Drv.C17
+import Reamber.Drv.C18
+import Reamber.Drv.C19
+import Reamber.Drv.C20
 
 open Lean
 
@@ -8,6 +28,26 @@ namespace Reamber
 def dispatch (op : String) (j : Json) : Except String Json :=
   match (op.splitOn ".").head! with
   | "timing" => Timing.handleTiming op j
+  | "c01" => C01.handle op j
+  | "c02" => C02.handle op j
+  | "c03" => C03.handle op j
+  | "c04" => C04.handle op j
+  | "c05" => C05.handle op j
+  | "c06" => C06.handle op j
+  | "c07" => C07.handle op j
+  | "c08" => C08.handle op j
+  | "c09" => C09.handle op j
+  | "c10" => C10.handle op j
+  | "c11" => C11.handle op j
+  | "c12" => C12.handle op j
+  | "c13" => C13.handle op j
+  | "c14" => C14.handle op j
+  | "c15" => C15.handle op j
+  | "c16" => C16.handle op j
+  | "c17" => C17.handle op j
+  | "c18" => C18.handle op j
+  | "c19" => C19.handle op j
+  | "c20" => C20.handle op j
   | fam => .error s!"unknown op family {fam}"
 
 end Reamber
